@@ -227,9 +227,26 @@ class Effects:
                         fresh.discard(t.id)
                         if isinstance(value, ast.Call) or value is None:
                             alias.pop(t.id, None)
-                        # comprehension-built list of per-element values
+                        # comprehension-built list of per-element values:
+                        # fresh only if the element expression creates a new
+                        # object; `[f(v) for v in (a, b)]` with an unknown f
+                        # may hand the arguments back (a, b = ... keeps the
+                        # targets aliased to the sources)
                         if isinstance(value, ast.ListComp):
-                            fresh.add(t.id)
+                            gen = value.generators[0]
+                            elt_fresh = len(value.generators) == 1 and \
+                                _is_fresh_expr(value.elt, fresh, P, env, cn)
+                            if elt_fresh:
+                                fresh.add(t.id)
+                            elif isinstance(gen.iter, (ast.Tuple, ast.List)) \
+                                    and len(tgts) == 1 and isinstance(
+                                        tgts[0], (ast.Tuple, ast.List)) and \
+                                    len(gen.iter.elts) == len(tgts[0].elts):
+                                i_ = [x for x in tgts[0].elts].index(t)
+                                src_ = gen.iter.elts[i_]
+                                if isinstance(src_, ast.Name) and \
+                                        src_.id in alias:
+                                    alias[t.id] = alias[src_.id]
                     continue
                 tt = t
                 sub = False
